@@ -10,7 +10,9 @@ package main
 //        tax.TotalCalculator{Country, Tags, Date, Lines: [one line with one combo]}.Calculate, then the combo
 //   c12 invoice <mode> <kind> <CC> <cat> <rate key> ( y m d ) ( tags ) ( ext )
 //        JSON text -> bill.Invoice -> Calculate -> JSON -> lines[0].taxes[0]; kind 0: issue_date = date,
-//        kind 1: value_date = date and issue_date = 2000-02-02
+//        kind 1: value_date = date and issue_date = 2000-02-02; kinds 2/3 bill.Order, 4/5 bill.Delivery;
+//        optional further arguments: ( decoy rows ) and ( y m d ) = the date every OTHER date field of the
+//        document is set to (result then ends with the top-level fields set and the number of dates set)
 //   c12 date ( y m d ) ( y m d )      -> ( valid_a valid_b a.Before(b) )
 //   c12 checkorder ( table )          -> RateDef.ValidateWithContext order verdict
 // <mode> selects the model variant on the oracle side (1 = after the repair, 0 = as shipped); ignored here.
@@ -22,6 +24,7 @@ import (
 	"errors"
 	"fmt"
 	"os"
+	"reflect"
 	"sort"
 	"strings"
 	"time"
@@ -340,6 +343,23 @@ func c12Invoice(a []V) []V {
 	if err := json.Unmarshal(text, calc); err != nil {
 		return []V{VErr("unmarshal")}
 	}
+	// other dates (optional eleventh argument ( y m d )): EVERY further date-typed field the document type has
+	// (operation, despatch, receive, delivery, period, due, advance, preceding/ordering reference dates ...,
+	// found by walking the Go type, absent parts allocated) is set to that date. The tax date is the value
+	// date or the issue date: what the observed line receives must not depend on any other date.
+	var otherSet []string
+	if len(a) > 10 && len(a[10].L) == 3 {
+		c12FillDates(reflect.ValueOf(calc).Elem(), c12Date(a[10]), "", &otherSet, 0)
+		// through the JSON text again, as a document arrives
+		t2, err := json.Marshal(calc)
+		if err != nil {
+			return []V{VErr("marshal")}
+		}
+		calc = reflect.New(reflect.TypeOf(calc).Elem()).Interface().(interface{ Calculate() error })
+		if err := json.Unmarshal(t2, calc); err != nil {
+			return []V{VErr("unmarshal")}
+		}
+	}
 	if err := calc.Calculate(); err != nil {
 		return c12ErrKind(err)
 	}
@@ -380,7 +400,117 @@ func c12Invoice(a []V) []V {
 	for k, v := range tx.Ext {
 		ext[cbc.Key(k)] = cbc.Code(v)
 	}
-	return []V{VL(VS("ok"), pv, sv, c12ExtV(ext), VS(tx.Rate))}
+	res := []V{VS("ok"), pv, sv, c12ExtV(ext), VS(tx.Rate)}
+	if otherSet != nil {
+		// the distinct top-level fields under which a date was set, and how many dates in all
+		ps, seen := []V{}, map[string]bool{}
+		for _, p := range otherSet {
+			if i := strings.IndexAny(p, ".["); i >= 0 {
+				p = p[:i]
+			}
+			if !seen[p] {
+				seen[p] = true
+				ps = append(ps, VS(p))
+			}
+		}
+		res = append(res, VL(ps...), VI(int64(len(otherSet))))
+	}
+	return []V{VL(res...)}
+}
+
+var (
+	c12DateT     = reflect.TypeOf(cal.Date{})
+	c12DateTimeT = reflect.TypeOf(cal.DateTime{})
+)
+
+// c12HasDates: does a value of type t (transitively, through pointers, slices and struct fields) hold a date?
+func c12HasDates(t reflect.Type, seen map[reflect.Type]bool) bool {
+	switch t.Kind() {
+	case reflect.Ptr, reflect.Slice:
+		return c12HasDates(t.Elem(), seen)
+	case reflect.Struct:
+		if t == c12DateT || t == c12DateTimeT {
+			return true
+		}
+		if seen[t] {
+			return false
+		}
+		seen[t] = true
+		defer delete(seen, t)
+		for i := 0; i < t.NumField(); i++ {
+			if t.Field(i).IsExported() && c12HasDates(t.Field(i).Type, seen) {
+				return true
+			}
+		}
+	}
+	return false
+}
+
+// c12FillDates sets every date below v to d, except the top-level issue_date and value_date; nil pointers to
+// parts that hold dates are allocated, empty slices of such parts get one element. Paths set are appended to set.
+func c12FillDates(v reflect.Value, d cal.Date, path string, set *[]string, depth int) {
+	if depth > 6 {
+		return
+	}
+	t := v.Type()
+	switch t.Kind() {
+	case reflect.Ptr:
+		if !c12HasDates(t.Elem(), map[reflect.Type]bool{}) {
+			return
+		}
+		if v.IsNil() {
+			if !v.CanSet() {
+				return
+			}
+			v.Set(reflect.New(t.Elem()))
+		}
+		c12FillDates(v.Elem(), d, path, set, depth)
+	case reflect.Slice:
+		if !c12HasDates(t.Elem(), map[reflect.Type]bool{}) {
+			return
+		}
+		if v.Len() == 0 && v.CanSet() {
+			v.Set(reflect.Append(v, reflect.Zero(t.Elem())))
+		}
+		for i := 0; i < v.Len(); i++ {
+			c12FillDates(v.Index(i), d, fmt.Sprintf("%s[%d]", path, i), set, depth+1)
+		}
+	case reflect.Struct:
+		if t == c12DateT {
+			if v.CanSet() {
+				v.Set(reflect.ValueOf(d))
+				*set = append(*set, path)
+			}
+			return
+		}
+		if t == c12DateTimeT {
+			if v.CanSet() {
+				v.Set(reflect.ValueOf(cal.MakeDateTime(d.Year, d.Month, d.Day, 12, 0, 0)))
+				*set = append(*set, path)
+			}
+			return
+		}
+		for i := 0; i < t.NumField(); i++ {
+			f := t.Field(i)
+			if !f.IsExported() {
+				continue
+			}
+			name := strings.Split(f.Tag.Get("json"), ",")[0]
+			if name == "-" {
+				continue
+			}
+			if path == "" && (name == "issue_date" || name == "value_date") {
+				continue
+			}
+			sub := name
+			if path != "" && name != "" {
+				sub = path + "." + name
+			} else if name == "" {
+				sub = path
+			}
+			c12FillDates(v.Field(i), d, sub, set, depth+1)
+		}
+	}
 }
 
 var _ = currency.CodeEmpty
